@@ -313,6 +313,24 @@ def bounded(rep, tier):
                 continue
             if got != want:
                 fails.setdefault(f'C07.bounded.{tgt}.mixed-constants', (repr(mix), f'`{" ".join(t.split())[:120]}` renders the constants as {got}, alone they render as {want}'))
+    # two constants in one statement: how the second one is rendered must not depend on the first (labels of un-aliased constants, post-processing
+    # of the whole text, caches): the text after `WHERE x = ` is compared with the same statement whose select list is a plain column
+    tricky = ["it's", 'a\nb', 'line1 \n  line2', 'x"y', 'a\\b', '50%', ':p', "''", 'a`b', '-- c', "/* c */ 'q"]
+    for tgt in TARGETS:
+        for v1 in tricky:
+            for v2 in tricky:
+                n += 1
+                try:
+                    w = BinaryOperation('=', args=[Identifier('x'), Constant(v2)])
+                    base = SqlalchemyRender(tgt).get_string(Select(targets=[Identifier('a')], from_table=Identifier('t'), where=w), with_failback=False)
+                    both = SqlalchemyRender(tgt).get_string(Select(targets=[Constant(v1)], from_table=Identifier('t'), where=BinaryOperation('=', args=[Identifier('x'), Constant(v2)])), with_failback=False)
+                except Exception as e:
+                    continue
+                k1, k2 = base.find('WHERE x = '), both.rfind('WHERE x = ')
+                if k1 < 0 or k2 < 0:
+                    continue
+                if base[k1:] != both[k2:]:
+                    fails.setdefault(f'C07.bounded.{tgt}.constant-pair', (repr((v1, v2)), f'with {v1!r} in the select list the condition is rendered `{both[k2:][:80]}`, alone `{base[k1:][:80]}`'))
     rep.bounded_evals = n
     rep.bounded_rule = (f'all strings of length <= {maxlen} over {chars} plus injection-shaped samples, as Constant in select list / WHERE / IN list / INSERT / UPDATE, '
                         'rendered by the real SqlalchemyRender for 5 dialects and scanned by an independent scanner of the target family; own to_string re-parsed; '
